@@ -165,6 +165,7 @@ type Case struct {
 	Special     bool        `json:"special,omitempty"`       // passwords contain characters that differ under URL / form encoding
 	LogVia      string      `json:"log_via,omitempty"`       // "" slog text handler | json slog JSON handler | logrus | logrus-json (the logrus bridge)
 	LogLevel    string      `json:"log_level,omitempty"`     // level the client's logger is enabled for: "" trace | debug | info | warn | error
+	CfgVia      string      `json:"cfg_via,omitempty"`       // how the host entries reach the client: "" Go structs | json | json-title (TLS value in title case) | yaml: the text form of a regctl / regsync / regbot configuration file, decoded with the repository's own (Un)marshal code
 	DefTLS      string      `json:"def_tls,omitempty"`       // WithConfigHostDefault: TLS of hosts that do not say ("" = no default host given)
 	DefRepoAuth bool        `json:"def_repo_auth,omitempty"` // WithConfigHostDefault: repoAuth
 	DefHelper   bool        `json:"def_helper,omitempty"`    // WithConfigHostDefault: credHelper (regctl --default-cred-helper): the helper is asked for every host
